@@ -245,7 +245,7 @@ func c10(c *Ctx) {
 			var nilRets []ssa.Instruction
 			for _, b := range pr.Blocks {
 				for _, in := range b.Instrs {
-					if ret, ok := an.AsReturn(in); ok && len(ret.Results) == 1 && an.IsNilConst(an.RetVal(ret, 0)) {
+					if ret, ok := an.AsReturn(in); ok && len(ret.Results) == 1 && an.MayBeNilConst(an.RetVal(ret, 0)) {
 						nilRets = append(nilRets, ret)
 					}
 				}
@@ -324,7 +324,7 @@ func (c *Ctx) everyMessageDispatched(rule string) {
 			n := 0
 			for _, b := range rm.Blocks {
 				ret, ok := an.AsReturn(b.Instrs[len(b.Instrs)-1])
-				if !ok || len(ret.Results) != 1 || !an.IsNilConst(an.RetVal(ret, 0)) || !an.InstrDominates(read, ret) {
+				if !ok || len(ret.Results) != 1 || !an.MayBeNilConst(an.RetVal(ret, 0)) || !an.InstrDominates(read, ret) {
 					continue
 				}
 				n++
@@ -362,7 +362,7 @@ func (c *Ctx) everyMessageDispatched(rule string) {
 		n := 0
 		for _, b := range pr.Blocks {
 			ret, ok := an.AsReturn(b.Instrs[len(b.Instrs)-1])
-			if !ok || len(ret.Results) != 1 || !an.IsNilConst(an.RetVal(ret, 0)) {
+			if !ok || len(ret.Results) != 1 || !an.MayBeNilConst(an.RetVal(ret, 0)) {
 				continue
 			}
 			n++
